@@ -41,6 +41,15 @@ type Settings struct {
 	// the frame this Settings was decoded from. It lets the receiver apply the
 	// window delta to open streams only when the value actually changed.
 	hasWindowSize bool
+
+	// hasTableSize, hasMaxStreams and hasFrameSize do the same for
+	// SETTINGS_HEADER_TABLE_SIZE, SETTINGS_MAX_CONCURRENT_STREAMS and
+	// SETTINGS_MAX_FRAME_SIZE. A SETTINGS frame only changes the parameters it
+	// carries (RFC 7540 6.5.3): one that is absent keeps the value the peer gave
+	// it earlier, which is not the default this struct is reset to.
+	hasTableSize  bool
+	hasMaxStreams bool
+	hasFrameSize  bool
 }
 
 func (st *Settings) Type() FrameType {
@@ -59,6 +68,9 @@ func (st *Settings) Reset() {
 	st.rawSettings = st.rawSettings[:0]
 	st.ack = false
 	st.hasWindowSize = false
+	st.hasTableSize = false
+	st.hasMaxStreams = false
+	st.hasFrameSize = false
 }
 
 // CopyTo copies st fields to st2.
@@ -72,6 +84,9 @@ func (st *Settings) CopyTo(st2 *Settings) {
 	st2.frameSize = st.frameSize
 	st2.headerSize = st.headerSize
 	st2.hasWindowSize = st.hasWindowSize
+	st2.hasTableSize = st.hasTableSize
+	st2.hasMaxStreams = st.hasMaxStreams
+	st2.hasFrameSize = st.hasFrameSize
 }
 
 // SetHeaderTableSize sets the maximum size of the header
@@ -184,6 +199,7 @@ func (st *Settings) Read(d []byte) error {
 		switch key {
 		case HeaderTableSize:
 			st.tableSize = value
+			st.hasTableSize = true
 		case EnablePush:
 			if value != 0 && value != 1 {
 				return NewGoAwayError(ProtocolError, "wrong value for SETTINGS_ENABLE_PUSH")
@@ -191,6 +207,7 @@ func (st *Settings) Read(d []byte) error {
 			st.enablePush = value != 0
 		case MaxConcurrentStreams:
 			st.maxStreams = value
+			st.hasMaxStreams = true
 		case MaxWindowSize:
 			if value > 1<<31-1 {
 				return NewGoAwayError(FlowControlError, "SETTINGS_INITIAL_WINDOW_SIZE above maximum")
@@ -202,6 +219,7 @@ func (st *Settings) Read(d []byte) error {
 				return NewGoAwayError(ProtocolError, "wrong value for SETTINGS_MAX_FRAME_SIZE")
 			}
 			st.frameSize = value
+			st.hasFrameSize = true
 		case MaxHeaderListSize:
 			st.headerSize = value
 		}
